@@ -3,8 +3,10 @@
 package libx
 
 import (
+	"bytes"
 	"fmt"
 	"math/rand"
+	"sync/atomic"
 
 	"github.com/aldas/go-modbus-client/packet"
 	"verif/specref"
@@ -20,6 +22,21 @@ func Coils(data []byte, qty int) []bool {
 	}
 	return out
 }
+
+// ArgMutated is set when a constructor was seen modifying the slice it was given (or the memory behind it). The checks
+// that build requests take it with TakeArgMutation after each case.
+var ArgMutated atomic.Pointer[string]
+
+// TakeArgMutation returns and clears the last recorded argument mutation ("" if none).
+func TakeArgMutation() string {
+	if m := ArgMutated.Swap(nil); m != nil {
+		return *m
+	}
+	return ""
+}
+
+var tailON = []bool{true, true, true, true, true, true, true, true, true, true, true, true, true, true, true, true}
+var tailFF = []byte{0xFF, 0xFF, 0xFF, 0xFF, 0xFF, 0xFF, 0xFF, 0xFF}
 
 // NewRequest calls the library constructor that corresponds to r. For FC15 the
 // coil slice is derived from r.Data/r.Qty; for TCP the transaction id is set to r.TID afterwards.
@@ -69,17 +86,33 @@ func NewRequest(f specref.Framing, r specref.Req) (packet.Request, error) {
 			req, err = nilIfErr(packet.NewWriteSingleRegisterRequestRTU(r.Unit, r.Addr, d))
 		}
 	case 15:
-		coils := Coils(r.Data, int(r.Qty))
+		// the coils are handed over the way a caller writing a large image in windows does: as a sub-slice with the rest of
+		// the image (here: 16 ON coils) behind it in the same backing array. The constructor must not touch its argument.
+		all := append(Coils(r.Data, int(r.Qty)), tailON...)
+		coils := all[:int(r.Qty)]
+		before := append([]bool(nil), all...)
 		if tcp {
 			req, err = nilIfErr(packet.NewWriteMultipleCoilsRequestTCP(r.Unit, r.Addr, coils))
 		} else {
 			req, err = nilIfErr(packet.NewWriteMultipleCoilsRequestRTU(r.Unit, r.Addr, coils))
 		}
+		for i := range all {
+			if all[i] != before[i] {
+				m := fmt.Sprintf("NewWriteMultipleCoilsRequest(%d coils passed as image[0:%d] of a %d-coil image): element %d of the caller's image changed from %v to %v", r.Qty, r.Qty, len(all), i, before[i], all[i])
+				ArgMutated.Store(&m)
+				break
+			}
+		}
 	case 16:
+		data := append(append([]byte(nil), r.Data...), tailFF...)[:len(r.Data)]
 		if tcp {
-			req, err = nilIfErr(packet.NewWriteMultipleRegistersRequestTCP(r.Unit, r.Addr, r.Data))
+			req, err = nilIfErr(packet.NewWriteMultipleRegistersRequestTCP(r.Unit, r.Addr, data))
 		} else {
-			req, err = nilIfErr(packet.NewWriteMultipleRegistersRequestRTU(r.Unit, r.Addr, r.Data))
+			req, err = nilIfErr(packet.NewWriteMultipleRegistersRequestRTU(r.Unit, r.Addr, data))
+		}
+		if full := data[:len(r.Data)+len(tailFF)]; !bytes.Equal(full[:len(r.Data)], r.Data) || !bytes.Equal(full[len(r.Data):], tailFF) {
+			m := fmt.Sprintf("NewWriteMultipleRegistersRequest(%d data bytes passed as buf[0:%d] of a longer buffer): the caller's buffer changed to % x", len(r.Data), len(r.Data), full)
+			ArgMutated.Store(&m)
 		}
 	case 17:
 		if tcp {
